@@ -13,6 +13,8 @@ RULE_MODULES: Dict[str, str] = {
     "R5": "r05_mintable",
     "R6": "r06_order",
     "R7": "r07_sites",
+    "R19": "r19_cyclegate",
+    "R20": "r20_connect",
     "R11": "r11_reply",
 }
 
